@@ -248,7 +248,7 @@ def random_classification(rng):
 
 
 def random_regression(rng, i):
-    mode = ["normal", "dyadic", "const-dyadic", "const-nondyadic", "perfect", "const-error", "wide", "grid"][i % 8]
+    mode = ["normal", "dyadic", "const-dyadic", "const-nondyadic", "perfect", "const-error", "wide", "grid", "tiny"][i % 9]
     n = rng.choice([1, 2, 4, 8, 16]) if mode in ("dyadic", "const-dyadic", "const-error") else rng.randint(1, 60)
     if mode == "grid":      # 2^-10 grid, short: cheap for the exact (non-normalising) Q model, inexact in binary64
         n = rng.randint(1, 12)
@@ -257,6 +257,13 @@ def random_regression(rng, i):
     elif mode == "normal":
         y = [rng.gauss(0, 10) for _ in range(n)]
         p = [a + rng.gauss(0, 1) for a in y]
+    elif mode == "tiny":    # non-constant targets whose total sum of squares is far below 1e-10
+        n = rng.randint(2, 8)
+        sc = 10.0 ** rng.randint(-9, -6)
+        y = [rng.randint(1, 9) * sc for _ in range(n)]
+        if len(set(y)) == 1:
+            y[0] += sc
+        p = [a + rng.choice([-0.5, 0.5, 0.25]) * sc for a in y]
     elif mode == "wide":
         s = 10.0 ** rng.randint(-6, 6)
         y = [rng.gauss(0, 1) * s for _ in range(n)]
